@@ -247,6 +247,8 @@ CHECKS["C02"] = dict(
         dict(name="H02a-chain", pkgs=["./s3api"], entry="s3api.VfAuthChain", redirects="spec/redirects_auth.json", reach=["answered", "handler-entered"],
              key_trace=['"route=', '"call='], panic_ok=True),
         dict(name="H02a-deferred", pkgs=["./s3api/utils"], entry="s3api/utils.VfDeferredAuth", redirects="spec/redirects_deferred.json", reach=["drained", "accepted"]),
+        dict(name="H02d-e2e", pkgs=["./s3api"], entry="s3api.VfAuthE2E", redirects="spec/redirects_auth.json,spec/redirects_fs.json", reach=["answered", "unauthenticated", "stored"],
+             panic_ok=True),
         dict(name="H02c-admin", pkgs=["./s3api"], entry="s3api.VfAdminAuthChain", redirects="spec/redirects_auth.json", reach=["answered", "admin-served"],
              key_trace=['"route=']),
         dict(name="H02b-date", pkgs=["./s3api/utils"], entry="s3api/utils.VfDateWindow", redirects="spec/redirects.json", reach=["accepted", "refused"]),
